@@ -475,3 +475,14 @@ M("c11-fixed-zero-truthy", ["C11", "C05"], D, "        if self.f_mu is not None:
 M("c14-weights-as-sigma", ["C14", "C09"], FIT, "    if weights is not None:\n        # curve_fit takes standard deviations: a weight w_i on the squared residual is sigma_i = w_i ** -0.5\n        weights = 1 / np.sqrt(np.asarray(weights, dtype=float))\n\n", "", rules={"C14": ["C14.bounds"], "C09": ["C09.dependence"]}, what="original defect: weights passed as sigma (inverted and squared)")
 M("c14-weights-inverse-only", "C14", FIT, "        weights = 1 / np.sqrt(np.asarray(weights, dtype=float))\n", "        weights = 1 / np.asarray(weights, dtype=float)\n", rules=["C14.bounds"], what="sigma = 1 / w: the weights are squared")
 M("c14-twin-weights-power", "C14", FIT, "        weights = 1 / np.sqrt(np.asarray(weights, dtype=float))\n", "        weights = np.asarray(weights, dtype=float) ** -0.5\n", expect="pass")
+
+# ------------------------------------------------------------------ third audit of eight properties: repairs reverted, with twins
+M("c08-coefficients-by-position", ["C08", "C14"], DEP, "            return self.func(x, **self.parameters)\n", "            return self.func(x, *self.parameters.values())\n", rules={"C08": ["C08.chain"], "C14": ["C14.eval"]}, what="original defect: conditioner must be last")
+M("c08-twin-coefficients-keys", "C08", DEP, "            return self.func(x, **dict(zip(self.parameters, args)), **kwargs)\n", "            return self.func(x, **dict(zip(self.parameters.keys(), args)), **kwargs)\n", expect="pass")
+M("c08-given-integer", "C08", D, "            given = np.asarray(given, dtype=float)\n", "            given = np.asarray(given)\n", rules=["C08.values"], what="original defect: integer conditioning values")
+M("c17-coordinates-own-dtype", "C17", U, "    coords = np.asarray(contour.coordinates, dtype=float)\n", "    coords = contour.coordinates\n", rules=["C17.float"], what="original defect: unsigned coordinates wrap around")
+M("c17-series-own-dtype", "C17", IX, "    x1 = np.asarray(x1, dtype=float)\n", "    x1 = np.asarray(x1)\n", rules=["C17.float"])
+M("c10-empty-data-width", "C10", I, "    def _slice(self, data):\n        if len(data) == 0:\n            # nothing to slice, slice_ reports the missing intervals\n            return [], [], []\n        if self.value_range is None:\n", "    def _slice(self, data):\n        if self.value_range is None:\n", rules=["C10.min"], what="original defect: ValueError for empty data")
+M("c10-twin-empty-data-size", "C10", I, "    def _slice(self, data):\n        if len(data) == 0:\n            # nothing to slice, slice_ reports the missing intervals\n            return [], [], []\n        if self.value_range is None:\n", "    def _slice(self, data):\n        if not len(data) > 0:\n            return [], [], []\n        if self.value_range is None:\n", expect="pass")
+M("c18-parameters-none-conditioner", "C18", J, "            if \"parameters\" in dist_desc and dist_desc.get(\"conditional_on\") is None:\n", "            if \"parameters\" in dist_desc and \"conditional_on\" not in dist_desc:\n", rules=["C18.guard"], what="original defect: 'conditional_on': None with parameters accepted")
+M("c18-marginal-cdf-nan", ["C18", "C06"], J, "        x = np.asarray_chkfinite(x)\n        dim = range(self.n_dim)[dim]  # a negative index counts from the last variable\n        if self.conditional_on[dim] is None:\n            # the distribution is not conditional -> it is the marginal\n            return self.distributions[dim].cdf(x)", "        dim = range(self.n_dim)[dim]  # a negative index counts from the last variable\n        if self.conditional_on[dim] is None:\n            # the distribution is not conditional -> it is the marginal\n            return self.distributions[dim].cdf(x)", rules={"C18": ["C18.shared"], "C06": ["C06.finite"]}, what="original defect: marginal_cdf([nan]) = 0")
